@@ -4,6 +4,7 @@ CONSTANTS
   PPs = {"all"}
   Lens = {0, 1, 125, 126, 65535, 65536}
   MaxCalls = 2
+  DModes = {""}
   FinishAnytime = TRUE
   BUG_StaleLen = FALSE
   BUG_LateMask = FALSE
